@@ -685,9 +685,55 @@ VARIANTS += [
     {"name": "P R2 ASCII flag spelt re.A as a keyword", "file": SCHEMA, "expect": "silent",
      "old": "(\\s+([^\\t\\r\\n]+))?$', re.ASCII)", "new": "(\\s+([^\\t\\r\\n]+))?$', flags=re.A)"},
     {"name": "R15 wearable reader skips blank lines before the name again (revert)", "file": WEARABLES, "expect": "C20.R15",
-     "old": "        # The name is the line right after the version, and it may be empty\n        name = reader.readline().rstrip()\n",
-     "new": "        cls._skip_to_next_populated_line(reader)\n        name = reader.readline().rstrip()\n"},
-    {"name": "P R15 wearable name line through a local", "file": WEARABLES, "expect": "silent",
-     "old": "        # The name is the line right after the version, and it may be empty\n        name = reader.readline().rstrip()\n",
-     "new": "        name_line = reader.readline()\n        name = name_line.rstrip()\n"},
+     "old": "        # The name is the line right after the version, and it may be empty\n",
+     "new": "        cls._skip_to_next_populated_line(reader)\n"},
+]
+
+# ---------------------------------------------------------------------- second audit round (anchored on the FIXED text)
+_NAME_READ_FIXED = '        name = reader.readline().rstrip("\\r\\n")\n'
+_DATE_READ_FIXED = '            creation_date=SchemaDate.from_llsd(block["CreationDate"], "legacy"),\n'
+
+VARIANTS += [
+    {"name": "R15 wearable name line stripped of every trailing blank again (revert)", "file": WEARABLES, "expect": "C20.R15",
+     "old": _NAME_READ_FIXED, "new": "        name = reader.readline().rstrip()\n"},
+    {"name": "R15 wearable name line stripped on both ends", "file": WEARABLES, "expect": "C20.R15",
+     "old": _NAME_READ_FIXED, "new": '        name = reader.readline().strip("\\r\\n")\n'},
+    {"name": "P R15 wearable name terminator removed as a suffix, through a local", "file": WEARABLES, "expect": "silent",
+     "old": _NAME_READ_FIXED, "new": '        raw_name = reader.readline()\n        name = raw_name.removesuffix("\\n")\n'},
+    {"name": "R16 block constructor stores the raw creation date again (revert)", "file": INV, "expect": "C20.R16",
+     "old": _DATE_READ_FIXED, "new": '            creation_date=block["CreationDate"],\n'},
+    {"name": "R16 block constructor parses the date with the text codec", "file": INV, "expect": "C20.R16",
+     "old": _DATE_READ_FIXED, "new": '            creation_date=SchemaDate.deserialize(block["CreationDate"]),\n'},
+    {"name": "P R16 date conversion hoisted into a local before the constructor", "file": INV, "expect": "silent",
+     "edits": [{"file": INV, "old": _DATE_READ_FIXED, "new": "            creation_date=created,\n"},
+               {"file": INV, "old": "    def from_inventory_data(cls, block: Block):\n",
+                "new": "    def from_inventory_data(cls, block: Block):\n"
+                       "        created = SchemaDate.from_llsd(block[\"CreationDate\"], \"legacy\")\n"}]},
+]
+
+# ---------------------------------------------------------------------- refactor round 8 twins
+_FLAG_FROM_OLD = """        if isinstance(val, int):
+            return val
+
+        if flavor == "legacy":
+            return struct.unpack("!I", val)[0]
+        return val
+"""
+
+VARIANTS += [
+    {"name": "P R2 flag reader with one or-guarded early return and a precompiled struct", "expect": "silent",
+     "edits": [{"file": INV, "old": _FLAG_FROM_OLD,
+                "new": "        if flavor != \"legacy\" or isinstance(val, int):\n            return val\n        return _FLAGS_STRUCT.unpack(val)[0]\n"},
+               {"file": INV, "old": "            return struct.pack(\"!I\", val)\n", "new": "            return _FLAGS_STRUCT.pack(val)\n"},
+               {"file": INV, "old": "class SchemaFlagField(SchemaHexInt):\n",
+                "new": "_FLAGS_STRUCT = struct.Struct(\"!I\")\n\n\nclass SchemaFlagField(SchemaHexInt):\n"}]},
+    {"name": "R2 precompiled structs of different byte order on the two sides", "expect": "C20.R2",
+     "edits": [{"file": INV, "old": "            return struct.unpack(\"!I\", val)[0]\n", "new": "            return _FLAGS_IN.unpack(val)[0]\n"},
+               {"file": INV, "old": "class SchemaFlagField(SchemaHexInt):\n",
+                "new": "_FLAGS_IN = struct.Struct(\"<I\")\n\n\nclass SchemaFlagField(SchemaHexInt):\n"}]},
+    {"name": "P R2 line strip moved into a helper generator of the tokeniser", "expect": "silent",
+     "edits": [{"file": INV, "old": "def _yield_schema_tokens(reader: StringIO):\n",
+                "new": "def _populated_lines(reader: StringIO):\n    while raw := reader.readline():\n"
+                       "        stripped = raw.strip(\" \\t\\r\\n\\x0b\\x0c\")\n        if stripped:\n            yield stripped\n\n\n"
+                       "def _yield_schema_tokens(reader: StringIO):\n    for _unused in ():\n        yield from _populated_lines(reader)\n"}]},
 ]
